@@ -22,6 +22,13 @@ thorough adds second-order kills (kill, resume, kill, resume).  Parallelism: rea
 dataset object the tool builds, captured from the tool itself) is driven for every assignment of
 n <= 4 items to <= 3 simulated workers and every per-worker order, each worker carrying its own
 dirty torch RNG state; the same dataset is also rebuilt for every manifest prefix.
+
+manifest_subsets: the real tool, in-process, for every order of 4 related utterance ids in the map
+(prefix / suffix / substring of one another, number look-alikes, case / suffix look-alikes), --seed 0
+and 3, and EVERY subset of the ids already listed in the manifest (lines in map order and reversed):
+listed files are not touched, all others equal the uninterrupted run.  The ids of the kill / resume
+scenarios are related in the same way ("1_a", "1", "11_a"), so that a resume which matches ids by
+anything but whole-line equality is also seen after real kills.
 """
 import itertools
 import json
@@ -43,6 +50,8 @@ ASSUMPTIONS = [
     "the OS schedule of DataLoader worker processes is not controlled: runs with 0-3 workers are "
     "single observed schedules; what is enumerated exhaustively is the repository-side mechanism "
     "(per-item re-seeding) over all worker assignments and per-worker orders of n <= 4 items",
+    "utterance ids: printable ASCII without white space ('<utt_id> <path>' lines); the manifests handed "
+    "to manifest_subsets hold only ids of the same map, one per line, as the tool itself writes them",
     "sample values: one generic signal per utterance; one utterance is long enough for torch.save to "
     "split its file over two syscalls (mid-file kill point)",
 ]
@@ -54,15 +63,30 @@ CFG_SI = {"name": "si", "bank": {"name": "gabor", "num_filts": 2, "low_hz": 0.0,
                                  "sampling_rate": 1000, "scaling_function": {"name": "linear", "low_hz": 0.0}},
           "frame_shift_ms": 2.5, "frame_style": "causal", "window_function": "hamming"}
 
+# Utterance ids are chosen so that ids are related as strings, in both map orders: in stft3 the
+# second id ("1") is a substring (prefix) of the first ("1_a"), and the first two are substrings (a
+# suffix, a prefix) of the third ("11_a"); "1" also looks like a number.  A resume that matches ids
+# against the manifest by anything but whole-line equality skips or recomputes the wrong utterance.
 SCENARIOS = {
-    "stft3": dict(computer=CFG_STFT, utts=[("u0", 40), ("big", 6000), ("u1", 47)], extra=[]),
-    "stft4": dict(computer=CFG_STFT, utts=[("u0", 40), ("big", 6000), ("u1", 47), ("u2", 33)], extra=[]),
-    "si5": dict(computer=CFG_SI, utts=[("a0", 30), ("a1", 41), ("long", 9000), ("a2", 36), ("a3", 52)],
+    "stft3": dict(computer=CFG_STFT, utts=[("1_a", 40), ("1", 6000), ("11_a", 47)], extra=[]),
+    "stft4": dict(computer=CFG_STFT, utts=[("1_a", 40), ("1", 6000), ("11_a", 47), ("a", 33)], extra=[]),
+    "si5": dict(computer=CFG_SI, utts=[("b", 30), ("ab", 41), ("long", 9000), ("a", 36), ("p_abc", 52)],
                 extra=["--file-prefix", "p_", "--file-suffix", ".feat"]),
-    "raw3w": dict(computer=None, utts=[("r0", 50), ("rbig", 9000), ("r1", 61)],
-                  extra=["--num-workers", "2"]),
+    "raw3w": dict(computer=None, utts=[("01", 50), ("1", 9000), ("10", 61)],
+                  extra=["--num-workers", "2"], seed="0"),
 }
-SEED_OPT = "3"
+SEED_OPT = "3"                      # scenarios without a "seed" entry
+SEED_OPTS = ("0", "3")              # manifest_subsets axis: --seed 0 is a seed like any other
+
+# id sets of the manifest_subsets sub-check (4 ids each; every map order and every manifest subset)
+ID_SETS = {
+    # prefix / suffix / infix relations
+    "substr": ["1", "11", "1_a", "a"],
+    # ids that are equal when read as numbers, or as numbers with another radix / format
+    "numeric": ["1", "01", "1.0", "10"],
+    # case, an id that contains the default file suffix, an id that contains another id + separator
+    "affix": ["a", "A", "a.pt", "x-a"],
+}
 
 
 # ------------------------------------------------------------------ layout of one run directory
@@ -86,6 +110,7 @@ class Layout:
                 np.save(p, np.round(sig.signal(seed, n, offset=300 + i) * 1000.0))
                 f.write("%s %s\n" % (u, p))
         self.extra = list(ex)
+        self.seed_opt = s.get("seed", SEED_OPT)
 
     def file(self, u):
         return os.path.join(self.out, self.prefix + u + self.suffix)
@@ -105,7 +130,7 @@ class Layout:
         a = [self.map]
         if s["computer"] is not None:
             a.append(json.dumps(s["computer"]))
-        a += [self.out, "--seed", SEED_OPT, "--preprocess", '["dither"]'] + self.extra + list(extra)
+        a += [self.out, "--seed", self.seed_opt, "--preprocess", '["dither"]'] + self.extra + list(extra)
         if manifest:
             a += ["--manifest", self.manifest]
         return a
@@ -623,6 +648,127 @@ def _mechanism_replay(case, seed):
     return _mechanism(("resume", case["n"], case["k"]), seed)
 
 
+# ------------------------------------------------------------------ manifests of a previous run
+
+def _manifest_subsets(pt, seed, only=None):
+    """pt = (id set name, map order as a tuple of indices into the id set, text of --seed).
+    The real tool is run in-process (uninterrupted, no manifest = reference), then once per
+    (subset of the ids listed in the manifest x order of the manifest lines): the listed ids' files
+    hold a sentinel, the others do not exist.  Afterwards every listed file must be untouched (I4)
+    and every other file must equal the reference run's (I3).
+    only = [mask, reversed] restricts the inner enumeration (replay)."""
+    torch = _torch()
+    from pydrobert.speech import command_line as cl
+
+    name, perm, seed_opt = pt[0], tuple(pt[1]), str(pt[2])
+    ids = [ID_SETS[name][i] for i in perm]
+    n = len(ids)
+    scn = "_ms_%s_%s_%s" % (name, "".join(map(str, perm)), seed_opt)
+    SCENARIOS[scn] = dict(computer=CFG_STFT, utts=[(u, 30 + 7 * i) for u, i in zip(ids, perm)], extra=[],
+                          seed=seed_opt)
+    d = tempfile.mkdtemp(prefix="verif-")
+    viol, evals, nontriv, obs = [], 0, 0, set()
+    try:
+        os.makedirs(os.path.join(d, "r"))
+        lay = Layout(os.path.join(d, "r"), scn, seed)
+        torch.manual_seed(99)
+        rc = cl.signals_to_torch_feat_dir(lay.args(manifest=False))
+        if rc:
+            raise core.HarnessError("in-process reference run returned %r" % (rc,))
+        ref = {u: torch.load(lay.file(u)) for u in lay.utts}
+        if sorted(os.listdir(lay.out)) != sorted(os.path.basename(lay.file(u)) for u in ids):
+            raise core.HarnessError("reference run wrote %r" % (sorted(os.listdir(lay.out)),))
+        for mask in range(2 ** n):
+            listed = [u for i, u in enumerate(ids) if mask >> i & 1]
+            for rev in ((False, True) if len(listed) > 1 else (False,)):
+                if only is not None and [mask, rev] != list(only):
+                    continue
+                evals += 1
+                nontriv += 1 if 0 < len(listed) < n else 0
+                shutil.rmtree(lay.out)
+                os.makedirs(lay.out)
+                lines = listed[::-1] if rev else listed
+                with open(lay.manifest, "w") as f:
+                    f.write("".join(u + "\n" for u in lines))
+                marks = {}
+                for u in listed:
+                    with open(lay.file(u), "wb") as f:
+                        f.write(SENTINEL)
+                    st = os.stat(lay.file(u))
+                    marks[u] = (st.st_ino, st.st_mtime_ns, st.st_size)
+                torch.manual_seed(1000 + mask)
+                torch.randn(mask + 1)
+                r = computers_call(cl.signals_to_torch_feat_dir, lay.args())
+                case = dict(kind="manifest_subsets", idset=name, perm=list(perm), seed_opt=seed_opt,
+                            only=[mask, rev])
+                prefix = listed == ids[:len(listed)]
+                tags = dict(level="tool_inprocess", manifest_is_map_prefix=prefix,
+                            manifest_nonempty=bool(listed))
+                if r[0] != "ok" or r[1]:
+                    viol.append(core.violation(
+                        dict(tags, what="resume_differs", how="exit_code"),
+                        "map order %r, manifest %r: the tool %s" % (
+                            ids, lines, "returned %r" % (r[1],) if r[0] == "ok" else "raised %s: %s" % r[1:]),
+                        case))
+                    continue
+                for u in listed:
+                    ok = os.path.exists(lay.file(u))
+                    if ok:
+                        st = os.stat(lay.file(u))
+                        with open(lay.file(u), "rb") as f:
+                            ok = f.read() == SENTINEL and \
+                                (st.st_ino, st.st_mtime_ns, st.st_size) == marks[u]
+                    if not ok:
+                        viol.append(core.violation(
+                            dict(tags, what="rewritten", how="rewritten"),
+                            "I4: map order %r, manifest %r: the file of %r, which is listed in the "
+                            "manifest, was written again or removed" % (ids, lines, u), case))
+                bad = {}
+                for u in ids:
+                    if u in listed:
+                        continue
+                    if not os.path.exists(lay.file(u)):
+                        bad[u] = "missing"
+                        continue
+                    with open(lay.file(u), "rb") as f:
+                        t, err = load_bytes(f.read())
+                    if t is None:
+                        bad[u] = "not loadable (%s)" % err
+                    elif not same_tensor(t, ref[u]):
+                        bad[u] = "tensor differs"
+                extra = sorted(set(os.listdir(lay.out)) - set(os.path.basename(lay.file(u)) for u in ids))
+                if bad or extra:
+                    how = "values" if bad and not extra and all(v == "tensor differs" for v in bad.values()) \
+                        else "files"
+                    rel = any(u != v and (u in v or v in u) for u in bad for v in listed)
+                    viol.append(core.violation(
+                        dict(tags, what="resume_differs", how=how, related_to_listed_id=rel),
+                        "I3: map order %r, manifest lists %r: after the run %r (not listed) differ from the "
+                        "uninterrupted run with the same --seed; unexpected files %r" % (
+                            ids, lines, bad, extra), case))
+                now = lay.manifest_ids()
+                unknown = [u for u in now if u not in ids]
+                if unknown or len(set(now)) != len(now):
+                    viol.append(core.violation(
+                        dict(tags, what="manifest_lists_incomplete",
+                             how="unknown_id" if unknown else "duplicate_id"),
+                        "map order %r, manifest before %r, after %r" % (ids, lines, now), case))
+                obs.add((len(listed), prefix))
+        return core.result(viol, evals=evals, nontrivial_count=nontriv,
+                           obs=[name, seed_opt, sorted(obs)], impl_calls=evals + 1,
+                           sample=dict(idset=name, map_order=ids, seed_opt=seed_opt, inner="every subset of the ids in the "
+                                       "manifest x {map order, reversed} of its lines"))
+    finally:
+        shutil.rmtree(d, ignore_errors=True)
+        SCENARIOS.pop(scn, None)
+
+
+def computers_call(fn, *args):
+    from .. import computers
+
+    return computers.call(fn, *args)
+
+
 # ------------------------------------------------------------------ python-level byte prefixes
 
 def _prefix_point(pt, ctx, seed):
@@ -770,6 +916,21 @@ def subchecks(tier, seed, only=None):
         "single-process run; one OS schedule each (DESIGN section 4)",
         axes=dict(num_workers=[0, 1, 2, 3], scenario=wscn), kind="real_runs", chunk=1,
         replay=lambda case: _workers_point((case["scn"], case["num_workers"]), ctx, seed)))
+    spts = [(name, perm, so) for name in ID_SETS for perm in itertools.permutations(range(4))
+            for so in SEED_OPTS]
+    scs.append(core.SubCheck(
+        "manifest_subsets", spts, lambda p: _manifest_subsets(p, seed),
+        "id set x EVERY order of its 4 ids in the map x --seed {0, 3}; inner: EVERY subset of the ids already listed in "
+        "the manifest (files of listed ids hold a sentinel) x {lines in map order, reversed}; the real "
+        "tool, in-process, --seed + dither: listed files untouched (I4), every other file equals the "
+        "uninterrupted run (I3), no unknown / duplicate manifest line; non-trivial = the manifest is "
+        "neither empty nor complete",
+        axes=dict(id_sets=ID_SETS, map_orders="all 24 permutations", seed=list(SEED_OPTS),
+                  manifest="all 16 subsets",
+                  manifest_line_order=["map order", "reversed"]),
+        replay=lambda case: _manifest_subsets((case["idset"], tuple(case["perm"]), case["seed_opt"]),
+                                              seed, only=case["only"]),
+        kind="manifests"))
     scs.append(core.SubCheck(
         "mechanism", mpts, lambda p: _mechanism(p, seed),
         "the dataset object built by the real tool (captured at the DataLoader call): every assignment "
